@@ -645,6 +645,7 @@ def run_case(chk, enc, R, case, opnames, lines, expect, overridden):
                 o = case.build(R)
                 ids, pos_ids = enc.ref_ids(o)
                 enc_o = enc.encode(o, ids, pos_ids)
+                g.set_state(gstate)
                 obs_o = observe(o, eff_src, g)
                 fl_o = flags(o, enc)
     finally:
